@@ -41,7 +41,7 @@ func determStateObligations(c *Ctx, a *dmAnalysis) []Obligation {
 			if f, ok := o.(*types.Func); ok && f.Type().(*types.Signature).Recv() != nil {
 				k = o.Pkg().Path() + ".(method)." + o.Name()
 			}
-			if uses[k] == nil || id.Pos() < uses[k].pos {
+			if uses[k] == nil || dmPosLess(c, id.Pos(), uses[k].pos) {
 				n := 0
 				if uses[k] != nil {
 					n = uses[k].count
@@ -104,7 +104,7 @@ func determStateObligations(c *Ctx, a *dmAnalysis) []Obligation {
 				if fn.Name() == "init" || strings.HasPrefix(fn.Name(), "init#") {
 					continue
 				}
-				for _, e := range a.sums[fn].Effects {
+				for _, e := range a.sums[fn].sortedEffects() {
 					if e.Root == root {
 						writers = append(writers, moCalleeName(fn)+" ("+e.Op+e.Path+")")
 						break
